@@ -162,6 +162,17 @@ func (e *Engine) c9Added(key uint64, added bool, nvict int) {
 		if used != sum {
 			e.violate("C03", "used-sum", fmt.Sprintf("used=%d differs from the sum of accounted costs %d", used, sum), 0)
 		}
+		if v := e.curNew; v != nil && e.plan.Flags.Injective && len(e.keyOfHash[key]) == 1 && e.keyOfHash[key][0] == v.Key {
+			// the cost the caller gave (explicit, or through Config.Cost), before
+			// the internal per-item cost is added
+			given := v.Cost
+			if given == 0 && e.plan.Cfg.CostFn {
+				given = v.FnC
+			}
+			if given > max {
+				e.violate("C03", "too-big-admitted", fmt.Sprintf("value %d (key %d) was given cost %d, larger than MaxCost %d, and was admitted (accounted as %d)", v.ID, v.Key, given, max, d.cost), 0)
+			}
+		}
 		if d.tooBig {
 			e.violate("C03", "too-big-admitted", fmt.Sprintf("item %#x with cost %d admitted although MaxCost was %d", key, d.cost, d.maxCost), 0)
 		}
